@@ -23,6 +23,8 @@ func main() {
 		cmdText(os.Args[2:])
 	case "run":
 		cmdRun(os.Args[2:])
+	case "comments":
+		cmdComments(os.Args[2:])
 	case "rules":
 		cmdRules(os.Args[2:])
 	default:
